@@ -99,6 +99,42 @@ Proof.
   unfold nthq, vzero. revert k; induction n as [|n IH]; intros [|k]; simpl; auto.
 Qed.
 
+Lemma qltb_true a b : qltb a b = true <-> a < b.
+Proof.
+  unfold qltb. rewrite negb_true_iff. split; intros H.
+  - destruct (Qlt_le_dec a b) as [L|L]; auto. apply Qle_bool_iff in L. congruence.
+  - destruct (Qle_bool b a) eqn:E; auto. apply Qle_bool_iff in E. lra.
+Qed.
+Lemma qltb_false a b : qltb a b = false <-> b <= a.
+Proof.
+  unfold qltb. rewrite negb_false_iff. apply Qle_bool_iff.
+Qed.
+Lemma qleb_true a b : qleb a b = true <-> a <= b.
+Proof. unfold qleb. apply Qle_bool_iff. Qed.
+Lemma qleb_false a b : qleb a b = false <-> b < a.
+Proof.
+  unfold qleb. split; intros H.
+  - destruct (Qlt_le_dec b a) as [L|L]; auto. apply Qle_bool_iff in L. congruence.
+  - destruct (Qle_bool a b) eqn:E; auto. apply Qle_bool_iff in E. lra.
+Qed.
+Lemma qeqb_true a b : qeqb a b = true <-> a == b.
+Proof. unfold qeqb. apply Qeq_bool_iff. Qed.
+
+Lemma nthq_map2 {f : Q -> Q -> Q} a b p : (p < length a)%nat -> length a = length b ->
+  nthq (map2 f a b) p = f (nthq a p) (nthq b p).
+Proof.
+  unfold nthq. revert b p; induction a as [|x a IH]; intros [|y b] [|p] L E; simpl in *; try lia; auto.
+  apply IH; lia.
+Qed.
+
+Lemma clip1_bounds v m : 0 <= m -> 0 <= clip1 v m <= m.
+Proof.
+  intros M. unfold clip1.
+  destruct (qltb m v) eqn:E1.
+  - destruct (qltb m 0) eqn:E2; [lra|]. apply qltb_false in E2. lra.
+  - apply qltb_false in E1. destruct (qltb v 0) eqn:E2; [lra|]. apply qltb_false in E2. lra.
+Qed.
+
 (* ------------------------------------------------------------------ part 2: setup *)
 Definition mol0 (s : vst) (k : nat) : Q := nthq (liq s) k + nthq (vap s) k.
 Definition wf (s : vst) : Prop := length (liq s) = length (vap s).
@@ -287,3 +323,402 @@ Proof.
   match type of H with (if ?b then _ else _) = _ => destruct b; [|discriminate] end.
   inversion H. reflexivity.
 Qed.
+
+(* ------------------------------------------------------------------ part 3: closure of the writes *)
+Definition outm {A} (d : mach) (f : A -> mach) (r : vres A) : mach :=
+  match r with VOk a => f a | VErr _ m => m end.
+
+Section Closure.
+Variable hyp : Prop.     (* the external hypotheses non-negativity needs; False for pure conservation *)
+Variable c : ctx.
+
+Definition molv_nn : Prop := forall p, 0 <= nthq (molv c) p.
+Definition sum_m (lv vv : vec) : Prop :=
+  forall p, (p < length (idx c))%nat -> nthq lv p + nthq vv p == nthq (molv c) p.
+Definition sum_c (s : vst) (lv vv : vec) : Prop :=
+  forall p, (p < length (idx c))%nat -> nthq lv p + nthq vv p == mol0 s (nth p (idx c) 0%nat).
+Definition nn_w (s : vst) (lv vv : vec) : Prop :=
+  hyp -> nn s -> molv_nn -> forall p, (p < length (idx c))%nat -> 0 <= nthq lv p /\ 0 <= nthq vv p.
+
+Inductive reach (s1 : vst) : vst -> Prop :=
+| r_refl : reach s1 s1
+| r_T s t : reach s1 s -> reach s1 (with_T s t)
+| r_P s p : reach s1 s -> reach s1 (with_P s p)
+| r_Wm s lv vv : reach s1 s -> sum_m lv vv -> nn_w s lv vv -> reach s1 (write2 c lv vv s)
+| r_Wc s lv vv : reach s1 s -> sum_c s lv vv -> nn_w s lv vv -> reach s1 (write2 c lv vv s).
+
+Definition good (s1 s : vst) : Prop :=
+  length (liq s) = length (liq s1) /\ length (vap s) = length (vap s1) /\ oth s = oth s1 /\
+  (forall k, pos k (idx c) = None -> nthq (liq s) k = nthq (liq s1) k /\ nthq (vap s) k = nthq (vap s1) k) /\
+  (forall k p, pos k (idx c) = Some p -> mol0 s k == nthq (molv c) p).
+
+Lemma write2_nth lv vv s k : (k < length (liq s))%nat -> length (liq s) = length (vap s) ->
+  nthq (liq (write2 c lv vv s)) k = match pos k (idx c) with Some p => nthq lv p | None => nthq (liq s) k end /\
+  nthq (vap (write2 c lv vv s)) k = match pos k (idx c) with Some p => nthq vv p | None => nthq (vap s) k end.
+Proof.
+  intros L W. unfold write2. cbn [liq vap with_flows].
+  rewrite !nthq_scatter by lia. split; reflexivity.
+Qed.
+
+Lemma good_write s1 s lv vv : wfc c s1 -> good s1 s ->
+  (forall p, (p < length (idx c))%nat -> nthq lv p + nthq vv p == nthq (molv c) p) ->
+  good s1 (write2 c lv vv s).
+Proof.
+  intros (W1 & W2 & W3 & W4 & W5) (G1 & G2 & G3 & G4 & G5) S.
+  unfold good. unfold write2 at 1 2 3. cbn [liq vap oth with_flows].
+  rewrite !scatter_length. repeat split; auto.
+  - destruct (Nat.lt_ge_cases k (length (liq s))) as [L|G].
+    + destruct (write2_nth lv vv s k L) as (A & _); [unfold wf in W4; congruence|].
+      rewrite A, H. apply G4; exact H.
+    + unfold write2. cbn [liq with_flows]. rewrite nthq_over by (rewrite scatter_length; exact G).
+      destruct (G4 k H) as (A & _). rewrite <- A. rewrite nthq_over by exact G. reflexivity.
+  - destruct (Nat.lt_ge_cases k (length (liq s))) as [L|G].
+    + destruct (write2_nth lv vv s k L) as (_ & A); [unfold wf in W4; congruence|].
+      rewrite A, H. apply G4; exact H.
+    + unfold write2. cbn [vap with_flows]. unfold wf in W4.
+      rewrite nthq_over by (rewrite scatter_length; lia).
+      destruct (G4 k H) as (_ & A). rewrite <- A. rewrite nthq_over by lia. reflexivity.
+  - intros k p Hp. pose proof (pos_some _ _ _ Hp) as (Hp1 & Hp2).
+    assert (L : (k < length (liq s))%nat) by (rewrite G1; apply W3; eapply pos_in; eauto).
+    destruct (write2_nth lv vv s k L) as (A & B); [unfold wf in W4; congruence|].
+    unfold mol0. rewrite A, B, Hp. apply S. exact Hp1.
+Qed.
+
+Lemma reach_good s1 s : wfc c s1 -> reach s1 s -> good s1 s.
+Proof.
+  intros W R. induction R as [|s t R IH|s p R IH|s lv vv R IH S N|s lv vv R IH S N].
+  - destruct W as (W1 & W2 & W3 & W4 & W5). unfold good. repeat split; auto.
+  - exact IH.
+  - exact IH.
+  - apply good_write; auto.
+  - apply good_write; auto. intros p Hp. rewrite (S p Hp).
+    destruct IH as (_ & _ & _ & _ & G5). apply G5. destruct W as (_ & W2 & _). apply pos_nodup; auto.
+Qed.
+
+Lemma good_same s1 s : wfc c s1 -> good s1 s -> same_lg s1 s.
+Proof.
+  intros (W1 & W2 & W3 & W4 & W5) (G1 & G2 & G3 & G4 & G5). unfold same_lg. repeat split; auto.
+  intros k. destruct (pos k (idx c)) as [p|] eqn:E.
+  - rewrite (G5 k p E). symmetry. apply W5. exact E.
+  - unfold mol0. destruct (G4 k E) as (A & B). rewrite A, B. reflexivity.
+Qed.
+
+Lemma good_placed cf s1 s : good s1 s -> (forall k, In k (idx c) -> kind_at cf k = KVle) ->
+  placed cf s1 -> placed cf s.
+Proof.
+  intros (G1 & G2 & G3 & G4 & G5) K P k L. rewrite G1 in L. destruct (P k L) as (P1 & P2).
+  destruct (pos k (idx c)) as [p|] eqn:E.
+  - apply pos_in in E. apply K in E. unfold is_light, is_heavy. split; intros F; congruence.
+  - destruct (G4 k E) as (A & B). rewrite A, B. auto.
+Qed.
+
+Lemma reach_nn s1 s : wfc c s1 -> reach s1 s -> hyp -> nn s1 -> molv_nn -> nn s.
+Proof.
+  intros W R H N M. induction R as [|s t R IH|s p R IH|s lv vv R IH S NW|s lv vv R IH S NW]; auto.
+  - pose proof (reach_good _ _ W R) as (G1 & G2 & _).
+    destruct W as (W1 & W2 & W3 & W4 & W5).
+    intros k. destruct (Nat.lt_ge_cases k (length (liq s))) as [L|G].
+    + destruct (write2_nth lv vv s k L) as (A & B); [unfold wf in W4; congruence|]. rewrite A, B.
+      destruct (pos k (idx c)) as [p|] eqn:E; [|apply IH].
+      apply NW; auto. apply pos_some in E. tauto.
+    + unfold write2. cbn [liq vap with_flows]. unfold wf in W4.
+      rewrite !nthq_over by (rewrite scatter_length; lia). split; lra.
+  - pose proof (reach_good _ _ W R) as (G1 & G2 & _).
+    destruct W as (W1 & W2 & W3 & W4 & W5).
+    intros k. destruct (Nat.lt_ge_cases k (length (liq s))) as [L|G].
+    + destruct (write2_nth lv vv s k L) as (A & B); [unfold wf in W4; congruence|]. rewrite A, B.
+      destruct (pos k (idx c)) as [p|] eqn:E; [|apply IH].
+      apply NW; auto. apply pos_some in E. tauto.
+    + unfold write2. cbn [liq vap with_flows]. unfold wf in W4.
+      rewrite !nthq_over by (rewrite scatter_length; lia). split; lra.
+Qed.
+
+(* ---- the writes the wrappers make ---- *)
+Hypothesis Lmolv : length (molv c) = length (idx c).
+
+Lemma reach_all_vap s1 s : reach s1 s -> reach s1 (all_vap c s).
+Proof.
+  intros R. apply r_Wm; auto.
+  - intros p Hp. unfold zeros. rewrite nthq_vzero. lra.
+  - intros _ _ M p Hp. unfold zeros. rewrite nthq_vzero. split; [lra|apply M].
+Qed.
+Lemma reach_all_liq s1 s : reach s1 s -> reach s1 (all_liq c s).
+Proof.
+  intros R. apply r_Wm; auto.
+  - intros p Hp. unfold zeros. rewrite nthq_vzero. lra.
+  - intros _ _ M p Hp. unfold zeros. rewrite nthq_vzero. split; [apply M|lra].
+Qed.
+
+Lemma reach_set_flows s1 s v : reach s1 s ->
+  (hyp -> nn s -> molv_nn -> forall p, (p < length (idx c))%nat -> 0 <= nthq v p <= nthq (molv c) p) ->
+  reach s1 (set_flows c v s).
+Proof.
+  intros R B. unfold set_flows. apply r_Wm; auto.
+  - intros p Hp. rewrite nthq_vsub by (rewrite fit_length; reflexivity).
+    rewrite nthq_fit by lia. lra.
+  - intros H N M p Hp. rewrite nthq_vsub by (rewrite fit_length; reflexivity).
+    rewrite nthq_fit by lia. specialize (B H N M p Hp). split; lra.
+Qed.
+
+Lemma clipv_bounds raw p : molv_nn -> (p < length (idx c))%nat ->
+  0 <= nthq (clipv raw (molv c)) p <= nthq (molv c) p.
+Proof.
+  intros M Hp. unfold clipv. rewrite nthq_map2 by (rewrite fit_length; lia).
+  apply clip1_bounds. apply M.
+Qed.
+
+Lemma reach_solve_flows s1 s raw : reach s1 s -> reach s1 (set_flows c (clipv raw (molv c)) s).
+Proof.
+  intros R. apply reach_set_flows; auto. intros _ _ M p Hp. apply clipv_bounds; auto.
+Qed.
+
+Lemma reach_split_V s1 s V : reach s1 s -> (hyp -> 0 <= V <= 1) -> reach s1 (split_V c V s).
+Proof.
+  intros R HV. unfold split_V. apply reach_set_flows; auto.
+  intros H _ M p Hp. rewrite nthq_vscale. specialize (HV H). specialize (M p). nra.
+Qed.
+
+End Closure.
+
+(* ------------------------------------------------------------------ part 4: every wrapper stays in the closure *)
+Definition om (r : vres mach) : mach := match r with VOk m => m | VErr _ m => m end.
+
+Lemma frac_between b h d : b < h -> h < d -> 0 <= (h - b) / (d - b) <= 1.
+Proof.
+  intros A B. assert (D : 0 < d - b) by lra.
+  split.
+  - apply Qle_shift_div_l; lra.
+  - apply Qle_shift_div_r; lra.
+Qed.
+
+Lemma c_tol_01 : 0 <= c_tol <= 1.
+Proof. unfold c_tol. split; unfold Qle; simpl; lia. Qed.
+Lemma c_999_01 : 0 <= c_999 <= 1.
+Proof. unfold c_999. split; unfold Qle; simpl; lia. Qed.
+
+Section Wrappers.
+Variable hyp : Prop.
+Variable c : ctx.
+Variable orc : oracle.
+Variable s1 : vst.
+Hypothesis Lmolv : length (molv c) = length (idx c).
+Notation R := (reach hyp c s1).
+
+Ltac brk := match goal with
+  | |- context [if ?x then _ else _] => destruct x eqn:?
+  end.
+Ltac rauto := repeat first [ assumption | apply r_T | apply r_P | apply reach_all_vap | apply reach_all_liq
+                           | apply reach_solve_flows | apply r_refl ].
+Ltac red1 := cbn [ms mset tick mk fst snd om].
+
+Lemma tp_chemical_reach s T P : R s -> R (tp_chemical orc c s T P).
+Proof. intros R0. unfold tp_chemical. repeat brk; rauto. Qed.
+
+Lemma tv_chemical_reach s T V : (hyp -> 0 <= V <= 1) -> R s -> R (tv_chemical orc c s T V).
+Proof. intros HV R0. unfold tv_chemical. apply reach_split_V; rauto. Qed.
+Lemma pv_chemical_reach s P V : (hyp -> 0 <= V <= 1) -> R s -> R (pv_chemical orc c s P V).
+Proof. intros HV R0. unfold pv_chemical. apply reach_split_V; rauto. Qed.
+
+Lemma ph_chemical_reach m P H : R (ms m) -> R (ms (ph_chemical orc c m P H)).
+Proof.
+  intros R0. unfold ph_chemical, call_xH, call_solveT. red1.
+  repeat brk; red1; rauto.
+  apply reach_split_V; rauto. intros _.
+  apply qleb_false in Heqb. apply qleb_false in Heqb0. apply frac_between; assumption.
+Qed.
+
+Lemma th_chemical_reach m T H : R (ms m) -> R (ms (om (th_chemical orc c m T H))).
+Proof.
+  intros R0. unfold th_chemical, call_xH. red1.
+  repeat brk; red1; rauto.
+  apply reach_split_V; rauto. intros _.
+  apply qleb_false in Heqb. apply qleb_false in Heqb0. apply frac_between; assumption.
+Qed.
+
+(* the split fraction _lever_rule ends up using *)
+Definition lever_sf (x y : vec) : Q :=
+  let sf := (nthq (molv c) 0 / Fmol c - nthq x 0) / (nthq y 0 - nthq x 0) in
+  if qltb 1 sf then 1 else if qltb sf 0 then 0 else sf.
+Definition lever_ok (x y : vec) : Prop :=
+  forall p, (p < length (idx c))%nat ->
+    0 <= Fmol c * lever_sf x y * nthq y p <= nthq (molv c) p.
+
+Lemma lever_reach x y m : (hyp -> lever_ok x y) -> R (ms m) -> R (ms (om (lever c x y m))).
+Proof.
+  intros HL R0. unfold lever.
+  destruct (qzerob (nthq y 0 - nthq x 0)); red1; rauto.
+  match goal with |- context [if negb ?b then _ else _] => destruct (negb b) end; red1; rauto.
+  change (R (set_flows c (vscale (Fmol c * lever_sf x y) (fit (length (idx c)) y)) (ms m))).
+  apply reach_set_flows; auto. intros H _ _ p Hp.
+  rewrite nthq_vscale. rewrite nthq_fit by exact Hp.
+  exact (HL H p Hp).
+Qed.
+
+Lemma solve_v_ms m : ms (fst (solve_v orc c m)) = ms m.
+Proof. reflexivity. Qed.
+
+Lemma evals_v_ms pts : forall m vl, ms (fst (evals_v orc c pts m vl)) = ms m.
+Proof.
+  induction pts as [|x t IH]; intros m vl; simpl; auto.
+  rewrite IH. reflexivity.
+Qed.
+
+(* every vector a bracketing loop leaves in self._v is a clipped one *)
+Definition clipped (v : vec) : Prop := exists raw, v = clipv raw (molv c).
+Lemma evals_v_clipped pts : forall m vl, clipped vl -> clipped (snd (evals_v orc c pts m vl)).
+Proof.
+  induction pts as [|x t IH]; intros m vl Hc; simpl; auto.
+  apply IH. eexists; reflexivity.
+Qed.
+
+Lemma reach_set_flows_clipped s v : clipped v -> R s -> R (set_flows c v s).
+Proof. intros (raw & E) R0. subst v. apply reach_solve_flows; auto. Qed.
+
+Lemma capv_le a mol p : (p < length mol)%nat -> length a = length mol ->
+  nthq (capv a mol) p <= nthq mol p /\ (nthq (capv a mol) p == nthq a p \/ nthq (capv a mol) p == nthq mol p).
+Proof.
+  intros Hp L. unfold capv. rewrite nthq_map2 by lia.
+  destruct (qltb (nthq mol p) (nthq a p)) eqn:E.
+  - split; [lra|right; reflexivity].
+  - apply qltb_false in E. split; [exact E|left; reflexivity].
+Qed.
+
+Lemma adj_V_01 V : 0 <= V <= 1 -> 0 <= adj_V c V <= 1.
+Proof.
+  intros HV. unfold adj_V. pose proof c_tol_01. pose proof c_999_01.
+  repeat brk; lra.
+Qed.
+
+Definition comps_nn : Prop :=
+  forall k p, 0 <= nthq (snd (o_bubble orc k)) p /\ 0 <= nthq (snd (o_dew orc k)) p.
+
+Lemma set_XV_multi_reach isT V m :
+  (hyp -> 0 <= V <= 1) -> (hyp -> comps_nn) -> (hyp -> 0 <= Fmol c) ->
+  R (ms m) -> R (ms (om (set_XV_multi orc c isT V m))).
+Proof.
+  intros HV HC HF R0. unfold set_XV_multi, call_dew, call_bubble, set_other. red1.
+  assert (HV' : hyp -> 0 <= adj_V c V <= 1) by (intros H; apply adj_V_01; auto).
+  destruct (o_bubble orc (mk m)) as [Xb yb] eqn:EB0.
+  repeat brk; red1; rauto.
+  all: try (destruct (o_dew orc (mk m)) as [Xd0 xd0]; red1; rauto; fail).
+  all: try (destruct (o_bubble orc (mk m)) as [Xb0 yb0]; red1; rauto; fail).
+  all: destruct (o_dew orc (S (mk m))) as [Xd xd] eqn:ED; red1.
+  all: repeat brk; red1; rauto.
+  all: unfold solve_v; red1.
+  all: repeat brk; red1; rauto.
+  all: try (destruct (o_iq orc _) as [pts X]; red1;
+            destruct (evals_v orc c pts _ _) as [m' v'] eqn:EV; red1;
+            pose proof (evals_v_ms pts (tick (tick (tick (tick m)))) (clipv (o_v orc (S (S (S (mk m))))) (molv c))) as E1;
+            pose proof (evals_v_clipped pts (tick (tick (tick (tick m)))) (clipv (o_v orc (S (S (S (mk m))))) (molv c))) as E2;
+            rewrite EV in E1, E2; cbn [fst snd] in E1, E2; rewrite E1; red1;
+            apply reach_set_flows_clipped; [apply E2; eexists; reflexivity|]; repeat brk; rauto; fail).
+  (* bubble-side and dew-side boundary branches *)
+  all: apply reach_set_flows; [repeat brk; rauto|].
+  all: intros H N M p Hp.
+  all: specialize (HV' H); specialize (HC H); specialize (HF H); specialize (M p).
+  - assert (L : length (vscale (Fmol c * adj_V c V) (fit (length (idx c)) yb)) = length (molv c))
+      by (rewrite vscale_length, fit_length; auto).
+    destruct (capv_le _ (molv c) p ltac:(lia) L) as (A & [B|B]).
+    + split; [|exact A]. rewrite B. rewrite nthq_vscale, nthq_fit by exact Hp.
+      destruct (HC (mk m) p) as (C1 & _). rewrite EB0 in C1. cbn [snd] in C1. nra.
+    + split; [|exact A]. rewrite B. exact M.
+  - assert (L : length (vscale (Fmol c * (1 - adj_V c V)) (fit (length (idx c)) xd)) = length (molv c))
+      by (rewrite vscale_length, fit_length; auto).
+    rewrite nthq_vsub by (unfold capv; rewrite map2_length; lia).
+    destruct (capv_le _ (molv c) p ltac:(lia) L) as (A & [B|B]).
+    + split; [|].
+      * lra.
+      * rewrite B. rewrite nthq_vscale, nthq_fit by exact Hp.
+        destruct (HC (S (mk m)) p) as (_ & C1). rewrite ED in C1. cbn [snd] in C1.
+        assert (0 <= Fmol c * (1 - adj_V c V) * nthq xd p) by nra. lra.
+    + split; lra.
+Qed.
+
+Lemma herr_eval_reach T P m : R (ms m) -> R (ms (fst (herr_eval orc c T P m))).
+Proof. intros R0. unfold herr_eval, solve_v, call_xH. red1. rauto. Qed.
+
+Lemma evals_h_reach isT X pts : forall m, R (ms m) -> R (ms (evals_h orc c isT X pts m)).
+Proof.
+  induction pts as [|x t IH]; intros m R0; simpl; auto.
+  destruct isT.
+  - destruct (herr_eval orc c X x m) as [m' h] eqn:E. apply IH.
+    change m' with (fst (m', h)). rewrite <- E. apply herr_eval_reach; auto.
+  - destruct (herr_eval orc c x X m) as [m' h] eqn:E. apply IH.
+    change m' with (fst (m', h)). rewrite <- E. apply herr_eval_reach; auto.
+Qed.
+
+Lemma clamp_f_01 f : 0 <= clamp_f f <= 1.
+Proof.
+  unfold clamp_f. repeat brk; try lra.
+  apply qltb_false in Heqb1. apply qltb_true in Heqb0. lra.
+Qed.
+
+Lemma nthq_only_idx a k p : pos k (idx c) = Some p -> (k < length a)%nat -> nthq (only_idx c a) k = nthq a k.
+Proof. intros Hp L. unfold only_idx. rewrite nthq_map_seq by exact L. rewrite Hp. reflexivity. Qed.
+
+Hypothesis Hnd : NoDup (idx c).
+Hypothesis Hrange : forall i, In i (idx c) -> (i < length (liq s1))%nat.
+Hypothesis Hwf : wf s1.
+Hypothesis Hwfc : wfc c s1.
+
+Lemma correct_reach T P H m : R (ms m) -> R (ms (correct orc c T P H m)).
+Proof.
+  intros R0. unfold correct, call_Hp, call_xH, call_solveT. red1.
+  pose proof (reach_good hyp c s1 _ Hwfc R0) as (G1 & G2 & _).
+  assert (RT : R (with_T (ms m) T)) by rauto.
+  set (s := with_T (ms m) T) in *.
+  assert (Ls : length (liq s) = length (liq s1)) by (unfold s; cbn [liq with_T]; exact G1).
+  assert (Lv : length (vap s) = length (vap s1)) by (unfold s; cbn [vap with_T]; exact G2).
+  assert (IDX : forall p, (p < length (idx c))%nat ->
+            nthq (gather (idx c) (only_idx c (liq s))) p = nthq (liq s) (nth p (idx c) 0%nat) /\
+            nthq (gather (idx c) (only_idx c (vap s))) p = nthq (vap s) (nth p (idx c) 0%nat)).
+  { intros p Hp. rewrite !nthq_gather by exact Hp.
+    assert (I : In (nth p (idx c) 0%nat) (idx c)) by (apply nth_In; exact Hp).
+    pose proof (Hrange _ I) as L. unfold wf in Hwf.
+    rewrite !(nthq_only_idx _ _ p) by (try (apply pos_nodup; auto); lia). auto. }
+  repeat brk; red1; rauto.
+  - (* condense *)
+    apply r_Wc; rauto.
+    + intros p Hp. rewrite nthq_vadd by (rewrite vscale_length, !gather_length; reflexivity).
+      rewrite nthq_vsub by (rewrite vscale_length, !gather_length; reflexivity).
+      rewrite !nthq_gather by exact Hp. unfold mol0. lra.
+    + intros _ N _ p Hp. rewrite nthq_vadd by (rewrite vscale_length, !gather_length; reflexivity).
+      rewrite nthq_vsub by (rewrite vscale_length, !gather_length; reflexivity).
+      rewrite nthq_vscale. destruct (IDX p Hp) as (_ & I2). rewrite I2.
+      rewrite !nthq_gather by exact Hp.
+      match goal with |- context [clamp_f ?f] => pose proof (clamp_f_01 f) as F end.
+      destruct (N (nth p (idx c) 0%nat)) as (N1 & N2). split; nra.
+  - apply r_Wc; rauto.
+    + intros p Hp. rewrite nthq_vadd by (rewrite vscale_length, !gather_length; reflexivity).
+      rewrite nthq_vsub by (rewrite vscale_length, !gather_length; reflexivity).
+      rewrite !nthq_gather by exact Hp. unfold mol0. lra.
+    + intros _ N _ p Hp. rewrite nthq_vadd by (rewrite vscale_length, !gather_length; reflexivity).
+      rewrite nthq_vsub by (rewrite vscale_length, !gather_length; reflexivity).
+      rewrite nthq_vscale. destruct (IDX p Hp) as (_ & I2). rewrite I2.
+      rewrite !nthq_gather by exact Hp.
+      match goal with |- context [clamp_f ?f] => pose proof (clamp_f_01 f) as F end.
+      destruct (N (nth p (idx c) 0%nat)) as (N1 & N2). split; nra.
+  - (* vaporise *)
+    apply r_Wc; rauto.
+    + intros p Hp. rewrite nthq_vadd by (rewrite vscale_length, !gather_length; reflexivity).
+      rewrite nthq_vsub by (rewrite vscale_length, !gather_length; reflexivity).
+      rewrite !nthq_gather by exact Hp. unfold mol0. lra.
+    + intros _ N _ p Hp. rewrite nthq_vadd by (rewrite vscale_length, !gather_length; reflexivity).
+      rewrite nthq_vsub by (rewrite vscale_length, !gather_length; reflexivity).
+      rewrite nthq_vscale. destruct (IDX p Hp) as (I1 & _). rewrite I1.
+      rewrite !nthq_gather by exact Hp.
+      match goal with |- context [clamp_f ?f] => pose proof (clamp_f_01 f) as F end.
+      destruct (N (nth p (idx c) 0%nat)) as (N1 & N2). split; nra.
+  - apply r_Wc; rauto.
+    + intros p Hp. rewrite nthq_vadd by (rewrite vscale_length, !gather_length; reflexivity).
+      rewrite nthq_vsub by (rewrite vscale_length, !gather_length; reflexivity).
+      rewrite !nthq_gather by exact Hp. unfold mol0. lra.
+    + intros _ N _ p Hp. rewrite nthq_vadd by (rewrite vscale_length, !gather_length; reflexivity).
+      rewrite nthq_vsub by (rewrite vscale_length, !gather_length; reflexivity).
+      rewrite nthq_vscale. destruct (IDX p Hp) as (I1 & _). rewrite I1.
+      rewrite !nthq_gather by exact Hp.
+      match goal with |- context [clamp_f ?f] => pose proof (clamp_f_01 f) as F end.
+      destruct (N (nth p (idx c) 0%nat)) as (N1 & N2). split; nra.
+Qed.
+
+End Wrappers.
